@@ -121,6 +121,90 @@ def string_query_rule(prog, run, rid, name, oracle, text, maxlen=3, alpha=(97, 9
     run.ob(rid, "%s folded on %d (string, argument) pairs over {a,b} up to length %d: %s" % (name, ncase, maxlen, text), f.site, bad is None, witness=bad or "%d pairs" % ncase, what=bad or "")
 
 
+def printable_size_rule(prog, run, rid):
+    """printable() against getPrintableSize(), folded for all 256 char values, pairs of class representatives and the empty string: the
+    buffer is allocated with the reserved size + 1, every byte written lies inside it, the terminator sits at the reserved index and
+    the escape table is indexed inside its extent. Shared with C14 (failure messages render string operands through printable())."""
+    gp = prog.fn(SS + "::getPrintableSize")
+    pr = prog.fn(SS + "::printable")
+    run.analysed(gp)
+    run.analysed(pr)
+    table = [n for n in pr.walk() if n["k"] == "DeclStmt" and any("[" in d.get("ct", "") and "char" in d.get("ct", "") for d in n.get("decls", []))]
+    tname = table[0]["decls"][0]["name"] if table else None
+    text = prog.types.get(table[0]["decls"][0]["ct"], {}).get("extent") if table else None
+    if text is None:
+        raise AnalysisBroken("escape table of printable() not found")
+    INL = {g.qn for g in prog.functions.values() if g.qn.startswith(SS + "::")}
+
+    def fold_printable(chars):
+        """fold getPrintableSize() and printable() on the string `chars`: reserved size, bytes written, table subscripts"""
+        env = {"buffer_": ("ptr", "S", 0), "bufferSize_": len(chars) + 1, "result.buffer_": ("ptr", "R", 0)}
+        for i_, c_ in enumerate(list(chars) + [0]):
+            env["S[%d]" % i_] = c_
+        e1 = Evaluator(prog, gp, env=env)
+        e1.inline = INL
+        e1.run_blocks(gp.entry, max_steps=4000)
+        reserved = getattr(e1, "ret", None)
+        alloc, copies, subs = [], [], []
+        e2 = Evaluator(prog, pr, env=env, calls={SS + "::setInternalBufferToNewBuffer": lambda *a_: (alloc.append(a_[-1]), 0)[1],
+                                                   SS + "::StrNCpy": lambda d_, s_, n_: (copies.append((d_, n_)), d_ if d_ is not None else 0)[1]})
+        e2.inline = INL - set(e2.calls)
+        e2.on_subscript = lambda base, idx, n_: subs.append(idx) if base == tname else None
+        e2.run_blocks(pr.entry, max_steps=8000)
+        direct = [(int(k[2:-1]), v) for k, v in e2.stores if k.startswith("R[")]
+        return reserved, alloc, copies, direct, subs
+
+    def judge(chars):
+        reserved, alloc, copies, direct, subs = fold_printable(chars)
+        if not isinstance(reserved, int):
+            raise Unknown("getPrintableSize() folds to %s" % (reserved,))
+        if alloc != [reserved + 1]:
+            return "printable() allocates %s bytes, getPrintableSize() + 1 = %s" % (alloc, reserved + 1), reserved, None
+        written = set(k for k, v in direct)
+        for d_, n_ in copies:
+            if not (isinstance(d_, tuple) and d_[1] == "R" and isinstance(n_, int)):
+                raise Unknown("copy target %s" % (d_,))
+            written |= set(range(d_[2], d_[2] + n_))
+        top = max(written) if written else -1
+        if top >= alloc[0]:
+            return "printable() writes index %d of a %d-byte buffer (getPrintableSize() reserves %d)" % (top, alloc[0], reserved), reserved, top
+        if written != set(range(0, reserved + 1)) or (reserved, 0) not in direct:
+            return "printable() writes bytes %s and terminates at %s; getPrintableSize() reserves %d and the terminator belongs at that index" % (sorted(written), [k for k, v in direct if v == 0], reserved), reserved, top
+        bad = [i_ for i_ in subs if not (0 <= i_ < text)]
+        if bad:
+            return "escape table index %s outside [0, %s)" % (bad[0], text), reserved, top
+        return "", reserved, top
+    for c in range(-128, 128):
+        if c == 0:
+            continue
+        try:
+            why, reserved, top = judge([c])
+            ok = not why
+            why = why and "char %d: %s" % (c, why)
+        except Unknown as u:
+            run.broke("%s.%s: " % (run.pid, rid) + "printable()/getPrintableSize() cannot be folded for char %d: %s" % (c, u))
+            break
+        run.ob(rid, "char value %d" % c, pr.site, ok, witness={"reserved": reserved, "last_index_written": top}, what=why)
+    reps = [7, 13, 1, 31, 32, 65, 127, -1, -128]
+    bad2 = None
+    for c1 in reps:
+        for c2 in reps:
+            try:
+                why, reserved, top = judge([c1, c2])
+            except Unknown as u:
+                run.broke("%s.%s: " % (run.pid, rid) + "cannot fold the two-char string (%d, %d): %s" % (c1, c2, u))
+                why = ""
+            if why and bad2 is None:
+                bad2 = "chars (%d, %d): %s" % (c1, c2, why)
+    run.ob(rid, "two-char strings over one representative of every class (%d pairs): the write index accumulates like the reserved size" % (len(reps) ** 2), pr.site, bad2 is None, witness=bad2 or reps, what=bad2 or "")
+    try:
+        why, reserved, top = judge([])
+    except Unknown as u:
+        why = "cannot fold: %s" % u
+    run.ob(rid, "the empty string: one byte reserved, terminator at index 0", pr.site, not why, what=why)
+
+
+
 def printable_text_rule(prog, run, rid):
     """SimpleString::printable() folded for every single byte value and for byte pairs: each byte is shown as itself, as its short
     escape, or as the hex escape of ITS OWN value, so that two different strings never share a printable form because of the escaping.
@@ -565,84 +649,7 @@ def check(ctx, run):
     replace_rule(prog, run, "R2", maxlen=4 + DEEP)
 
     # ---------------- R3 ----------------------------------------------------
-    gp = prog.fn(SS + "::getPrintableSize")
-    pr = prog.fn(SS + "::printable")
-    run.analysed(gp)
-    run.analysed(pr)
-    table = [n for n in pr.walk() if n["k"] == "DeclStmt" and any("[" in d.get("ct", "") and "char" in d.get("ct", "") for d in n.get("decls", []))]
-    tname = table[0]["decls"][0]["name"] if table else None
-    text = prog.types.get(table[0]["decls"][0]["ct"], {}).get("extent") if table else None
-    if text is None:
-        raise AnalysisBroken("escape table of printable() not found")
-    INL = {g.qn for g in prog.functions.values() if g.qn.startswith(SS + "::")}
-
-    def fold_printable(chars):
-        """fold getPrintableSize() and printable() on the string `chars`: reserved size, bytes written, table subscripts"""
-        env = {"buffer_": ("ptr", "S", 0), "bufferSize_": len(chars) + 1, "result.buffer_": ("ptr", "R", 0)}
-        for i_, c_ in enumerate(list(chars) + [0]):
-            env["S[%d]" % i_] = c_
-        e1 = Evaluator(prog, gp, env=env)
-        e1.inline = INL
-        e1.run_blocks(gp.entry, max_steps=4000)
-        reserved = getattr(e1, "ret", None)
-        alloc, copies, subs = [], [], []
-        e2 = Evaluator(prog, pr, env=env, calls={SS + "::setInternalBufferToNewBuffer": lambda *a_: (alloc.append(a_[-1]), 0)[1],
-                                                   SS + "::StrNCpy": lambda d_, s_, n_: (copies.append((d_, n_)), d_ if d_ is not None else 0)[1]})
-        e2.inline = INL - set(e2.calls)
-        e2.on_subscript = lambda base, idx, n_: subs.append(idx) if base == tname else None
-        e2.run_blocks(pr.entry, max_steps=8000)
-        direct = [(int(k[2:-1]), v) for k, v in e2.stores if k.startswith("R[")]
-        return reserved, alloc, copies, direct, subs
-
-    def judge(chars):
-        reserved, alloc, copies, direct, subs = fold_printable(chars)
-        if not isinstance(reserved, int):
-            raise Unknown("getPrintableSize() folds to %s" % (reserved,))
-        if alloc != [reserved + 1]:
-            return "printable() allocates %s bytes, getPrintableSize() + 1 = %s" % (alloc, reserved + 1), reserved, None
-        written = set(k for k, v in direct)
-        for d_, n_ in copies:
-            if not (isinstance(d_, tuple) and d_[1] == "R" and isinstance(n_, int)):
-                raise Unknown("copy target %s" % (d_,))
-            written |= set(range(d_[2], d_[2] + n_))
-        top = max(written) if written else -1
-        if top >= alloc[0]:
-            return "printable() writes index %d of a %d-byte buffer (getPrintableSize() reserves %d)" % (top, alloc[0], reserved), reserved, top
-        if written != set(range(0, reserved + 1)) or (reserved, 0) not in direct:
-            return "printable() writes bytes %s and terminates at %s; getPrintableSize() reserves %d and the terminator belongs at that index" % (sorted(written), [k for k, v in direct if v == 0], reserved), reserved, top
-        bad = [i_ for i_ in subs if not (0 <= i_ < text)]
-        if bad:
-            return "escape table index %s outside [0, %s)" % (bad[0], text), reserved, top
-        return "", reserved, top
-    for c in range(-128, 128):
-        if c == 0:
-            continue
-        try:
-            why, reserved, top = judge([c])
-            ok = not why
-            why = why and "char %d: %s" % (c, why)
-        except Unknown as u:
-            run.broke("C13.R3: printable()/getPrintableSize() cannot be folded for char %d: %s" % (c, u))
-            break
-        run.ob("R3", "char value %d" % c, pr.site, ok, witness={"reserved": reserved, "last_index_written": top}, what=why)
-    reps = [7, 13, 1, 31, 32, 65, 127, -1, -128]
-    bad2 = None
-    for c1 in reps:
-        for c2 in reps:
-            try:
-                why, reserved, top = judge([c1, c2])
-            except Unknown as u:
-                run.broke("C13.R3: cannot fold the two-char string (%d, %d): %s" % (c1, c2, u))
-                why = ""
-            if why and bad2 is None:
-                bad2 = "chars (%d, %d): %s" % (c1, c2, why)
-    run.ob("R3", "two-char strings over one representative of every class (%d pairs): the write index accumulates like the reserved size" % (len(reps) ** 2), pr.site, bad2 is None, witness=bad2 or reps, what=bad2 or "")
-    try:
-        why, reserved, top = judge([])
-    except Unknown as u:
-        why = "cannot fold: %s" % u
-    run.ob("R3", "the empty string: one byte reserved, terminator at index 0", pr.site, not why, what=why)
-
+    printable_size_rule(prog, run, "R3")
     printable_text_rule(prog, run, "R3")
 
     # ---------------- R4 ----------------------------------------------------
